@@ -156,6 +156,17 @@ func checkC11(c C11Case, o *h.Obs) *h.Fail {
 	if !got.Val().Equal(xv) {
 		return h.Failf("roundtrip", "format %s: %v printed as %q parsed back as %v", c.Fmt, xv, h.FirstN(out, 300), got.Val())
 	}
+	// the same text through fmt.Sscan (the Scan method reads from a rune scanner that cannot tell its length in
+	// advance) into a fresh receiver of the same precision; Scan is documented not to handle infinities
+	if xv.Form != model.Inf && c.Fmt != "json" && c.Fmt != "text" && (len(out)+int(c.RM))%2 == 0 {
+		zs := new(decimal.Decimal).SetMode(decimal.RoundingMode(c.RM)).SetPrec(prec)
+		if _, err := fmt.Sscan(out, zs); err != nil {
+			return h.Failf("parse", "fmt.Sscan(%q): %v", h.FirstN(out, 200), err)
+		}
+		if gs := h.Read(zs); gs.Malformed != "" || !gs.Val().Equal(xv) || gs.Acc != 0 {
+			return h.Failf("roundtrip", "format %s: %v printed as %q comes back from fmt.Sscan as %v (accuracy %v)", c.Fmt, xv, h.FirstN(out, 300), gs.Val(), model.Acc(gs.Acc))
+		}
+	}
 	if got.Acc != 0 {
 		return h.Failf("acc", "format %s: parsing %q back into precision %d reports %v", c.Fmt, h.FirstN(out, 200), prec, model.Acc(got.Acc))
 	}
@@ -179,7 +190,7 @@ func checkC11(c C11Case, o *h.Obs) *h.Fail {
 	return nil
 }
 
-const ruleC11 = "rapid-generated Decimals (clean and dirty zeros/infinities, 1..3000 (quick) / 20000 (thorough) digits, word patterns with interior and trailing zero words, extra precision so that whole low words are zero, about one case in 150 with 9700..19500 digits, exponents over the whole int32 range for e/E/g/G/p/b/MarshalText/JSON and |exp| <= 5000 for f) x format x parse base {0,10} x receiver mode x receiver precision MinPrec..MinPrec+100. Oracle: round trip (form, sign, digits, exponent identical, Acc()==Exact, Append==Text, a second parse of the same text into the same, now roomy, receiver gives the same value) and the digit-count clause (significand characters without layout zeros == x's MinPrec digits). About one case in 25000 (a handful per run) is a value of 2^14 or 2^15 words and a little more (311 000 .. 623 000 digits) printed and parsed back in every format. Non-trivial = finite with more than one word, or containing a zero word, or exponent within 60 of a range end."
+const ruleC11 = "rapid-generated Decimals (clean and dirty zeros/infinities, 1..3000 (quick) / 20000 (thorough) digits, word patterns with interior and trailing zero words, extra precision so that whole low words are zero, about one case in 150 with 9700..19500 digits, exponents over the whole int32 range for e/E/g/G/p/b/MarshalText/JSON and |exp| <= 5000 for f) x format x parse base {0,10} x receiver mode x receiver precision MinPrec..MinPrec+100. Oracle: round trip (form, sign, digits, exponent identical, Acc()==Exact, Append==Text, a second parse of the same text into the same, now roomy, receiver gives the same value) and the digit-count clause (significand characters without layout zeros == x's MinPrec digits). About one case in 25000 (a handful per run) is a value of 2^14 or 2^15 words and a little more (311 000 .. 623 000 digits) printed and parsed back in every format. Half of the texts are also read back through fmt.Sscan (a reader without a known length) into a fresh receiver. Non-trivial = finite with more than one word, or containing a zero word, or exponent within 60 of a range end."
 
 var propC11 = &h.Prop[C11Case]{ID: "C11", Rule: ruleC11, Gen: genC11, Check: checkC11, Matchers: map[string]func(C11Case) bool{}}
 
